@@ -13,7 +13,7 @@ TRUSTED = ["the lists are those of the implementation; the Saenger table and the
 
 
 def check_lists(s3, raw, model_number):
-    from rnapolis import tertiary as T
+    from . import chem as T
     from rnapolis.annotator import detect_bph_br_classification
     from rnapolis.common import LeontisWesthof, Saenger
     bp, bph, br, st = raw
